@@ -444,6 +444,9 @@ func init() {
 			w := map[string]int{"set": 40, "rm": 14, "save": 24, "rollback": 2, "reopen": 4, "load": 1, "delto": 5, "lfo": 2, "delfrom": 1}
 			p := &v1x.GenParams{MinOps: 10, MaxOps: 40, W: w, MaxKeys: 10, InvalidPct: 2, Backends: []string{"mem"}, Initials: []int64{0, 0, 1, 9, 64}}
 			pl := v1x.MakePlan(c.Rng, p)
+			if v1x.EmptyKeyVariant(pl, c.Index/2) {
+				c.Obs("histories_with_the_empty_key", 1)
+			}
 			c.Res.Digest = fw.DigestOf("fidelity", big, pl.Cfg, pl.Summary(1000))
 			if c.Index < 4 {
 				c.Res.Sample = pl.Summary(60)
